@@ -89,6 +89,23 @@ def check_definition(case):
             call("finalize (earlier utterance)", comp.finalize)
         else:
             call("compute_full (earlier utterance)", comp.compute_full, y)
+    if pr and pr.get("odd_call"):
+        # an earlier call that the computer may reject (a 2-D array) or accept (integer samples) is over when it returns
+        # or raises: the computer must take the next signal as if nothing had happened
+        try:
+            comp.compute_full(np.arange(12, dtype=np.int16) if pr["odd_call"] == "int16" else np.zeros((3, 4)))
+        except Exception:  # noqa - how such input is treated is not judged here
+            pass
+    if case.get("serialise"):
+        # the computer is pickled / deep-copied (sent to a worker process) before it is used here: serialising an object
+        # must not change the object
+        import copy
+        import pickle
+
+        try:
+            pickle.dumps(comp) if case["serialise"] == "pickle" else copy.deepcopy(comp)
+        except Exception:  # noqa - whether a computer can be serialised at all is not judged
+            pass
     got = call("compute_full", comp.compute_full, x)
     ncoef = bank.num_filts + int(spec["include_energy"])
     require(comp.num_coeffs == ncoef, "num_coeffs {} != {}", comp.num_coeffs, ncoef)
@@ -177,9 +194,11 @@ def _cases(draw, rates=(1000,), max_len=64):
         n = draw(st.sampled_from([4097, 10000, 16385, 20011]))  # many frames: block-wise implementations differ only here
     sig = draw(signal_specs(st.just(n), SIGNAL_KINDS + EXTREME_KINDS))
     prior = draw(st.one_of(st.none(), st.none(), st.fixed_dictionaries({
-        "sig": signal_specs(st.integers(0, 3 * L)), "chunked": st.booleans()})))
+        "sig": signal_specs(st.integers(0, 3 * L)), "chunked": st.booleans(),
+        "odd_call": st.sampled_from([None, None, "int16", "2d"])})))
     other = draw(st.one_of(st.none(), st.none(), st.none(), stft_specs(rates=rates, max_len=16)))
-    return {"comp": comp, "sig": sig, "prior": prior, "config": draw(log_floor_configs()), "other": other}
+    return {"comp": comp, "sig": sig, "prior": prior, "config": draw(log_floor_configs()), "other": other,
+            "serialise": draw(st.sampled_from([None, None, None, "pickle", "deepcopy"]))}
 
 
 @st.composite
